@@ -196,9 +196,10 @@ fn compare_eq(left: &dyn Array, right: &dyn Array) -> Result<BooleanArray> {
                 .downcast_ref::<Float64Array>()
                 .ok_or_else(|| QueryError::Execution("Failed to downcast right".to_string()))?;
 
+            // totalOrder, like arrow's cmp kernels (NaN == NaN, -0.0 != 0.0)
             let mut values = vec![false; left.len()];
             for i in 0..left.len() {
-                values[i] = left_arr.value(i) == right_arr.value(i);
+                values[i] = left_arr.value(i).total_cmp(&right_arr.value(i)).is_eq();
             }
 
             Ok(BooleanArray::from(values))
@@ -248,9 +249,10 @@ fn compare_lt(left: &dyn Array, right: &dyn Array) -> Result<BooleanArray> {
                 .downcast_ref::<Float64Array>()
                 .ok_or_else(|| QueryError::Execution("Failed to downcast right".to_string()))?;
 
+            // totalOrder, like arrow's cmp kernels
             let mut values = vec![false; left.len()];
             for i in 0..left.len() {
-                values[i] = left_arr.value(i) < right_arr.value(i);
+                values[i] = left_arr.value(i).total_cmp(&right_arr.value(i)).is_lt();
             }
 
             Ok(BooleanArray::from(values))
